@@ -429,16 +429,45 @@ func c20(r *core.Run) {
 	first := queryKinds[src.Intn(len(queryKinds))]
 	r.Knob("first_query", first)
 	app2 := e.w.NewProc("app2", memfs.Cred{})
+	// what a process holds on behalf of the library: goroutines the harness did
+	// not start, inotify instances, the poller descriptors that go with them, watches
+	type resources struct{ lib, inotify, aux, watches int }
+	resourcesOf := func(p *sched.Proc) resources {
+		var out resources
+		for _, t := range p.LiveTasks() {
+			harnessTask := false
+			for _, pre := range []string{"create", "reconfigurer", "poller", "queries", "Refresh", "fresh", "mutator", "squeezer", "again"} {
+				harnessTask = harnessTask || strings.HasPrefix(t.Name, pre)
+			}
+			if !harnessTask {
+				out.lib++
+			}
+		}
+		kinds := p.FDKinds()
+		out.inotify, out.aux = kinds["inotify"], kinds["aux"]
+		for _, in := range e.w.FS.Inotifys() {
+			if in.Owner == p.Proc {
+				out.watches += len(in.WatchedPaths())
+			}
+		}
+		return out
+	}
+	var freshRes resources
 	freshObs := func(label string) (*obs, map[string]string, []string) {
 		var o *obs
 		var de map[string]string
 		var dirs []string
+		var fc *cdi.Cache
 		e.doIn(app2, "fresh-"+label, func() {
-			fc, _ := cdi.NewCache(cdi.WithSpecDirs(curDirs...), cdi.WithAutoRefresh(curAuto))
+			fc, _ = cdi.NewCache(cdi.WithSpecDirs(curDirs...), cdi.WithAutoRefresh(curAuto))
 			touch(fc, probeNames(truthOf()), first)
 			o = observeFirst(fc, probeNames(truthOf()), first, curAuto)
 			de = dirErrs(fc)
 			dirs = fc.GetSpecDirectories()
+		})
+		e.w.Quiesce()
+		freshRes = resourcesOf(app2) // what a new cache with the final options holds
+		e.doIn(app2, "fresh-release-"+label, func() {
 			_ = fc.Configure(cdi.WithAutoRefresh(false)) // release its watcher
 		})
 		e.w.Quiesce()
@@ -506,60 +535,61 @@ func c20(r *core.Run) {
 	if !lastInWindow && fmtMap(gotDirErrs) != fmtMap(wantDirErrs) {
 		r.Failf("not-equivalent", "directory-errors", "GetSpecDirErrors() = %s, a new cache with the final options reports %s", fmtMap(gotDirErrs), fmtMap(wantDirErrs))
 	}
-	// (c) bounded resources at quiescence
+	// (c) bounded resources.  The property asks that what the cache holds does
+	// not grow with the number of reconfigurations; it prescribes no design (one
+	// watcher or two, watches on the directories only or also on an ancestor of
+	// a missing one).  Two measures: against a NEW cache with the final options
+	// (plus a constant allowance: an idle watcher kept while auto-refresh is
+	// off is wasteful, not unbounded), and growth over three more
+	// reconfigurations to the same final options.
 	e.w.Quiesce()
-	liveWatchers, liveLib := 0, 0
-	for _, t := range e.app.LiveTasks() {
-		if strings.HasPrefix(t.Name, "w.watch") {
-			liveWatchers++
-		}
-		// every task of the application process that the harness did not start is a library goroutine
-		harnessTask := false
-		for _, pre := range []string{"create", "reconfigurer", "poller", "queries", "Refresh", "fresh", "mutator"} {
-			harnessTask = harnessTask || strings.HasPrefix(t.Name, pre)
-		}
-		if !harnessTask {
-			liveLib++
-		}
-	}
-	if liveLib > 3 {
-		r.Failf("resources", "library-goroutines", "%d goroutines started by the library are alive after %d reconfigurations: their number must not grow with the number of reconfigurations (a watcher plus at most two helpers is expected)", liveLib, len(steps))
-	}
-	kinds := e.app.FDKinds()
-	// The property bounds resources independently of the history length; it does
-	// not forbid one idle watcher while auto-refresh is off (whether refreshing is
-	// really off is checked by the probe change below).
-	maxInst := 1
-	if liveWatchers > maxInst {
-		r.Failf("resources", "watcher-goroutines", "%d watcher goroutines are alive after %d reconfigurations (auto-refresh %v): their number must not grow with the reconfigurations (at most %d)", liveWatchers, len(steps), curAuto, maxInst)
-	}
-	if kinds["inotify"] > maxInst || kinds["aux"] > 3*maxInst {
-		r.Failf("resources", "descriptors", "after %d reconfigurations the process holds %d inotify descriptors and %d poller descriptors (auto-refresh %v): at most %d watcher may remain", len(steps), kinds["inotify"], kinds["aux"], curAuto, maxInst)
-	}
-	// (b) watches on exactly the final directories that exist
-	var watched []string
-	for _, in := range e.w.FS.Inotifys() {
-		if in.Owner == e.app.Proc {
-			watched = append(watched, in.WatchedPaths()...)
-		}
-	}
-	sort.Strings(watched)
-	wantWatched := map[string]bool{}
+	cur := resourcesOf(e.app)
+	distinctFinal := map[string]bool{}
 	for i, d := range finalDirs {
 		if truth.DirState[i] == "ok" {
-			wantWatched[d] = true
+			distinctFinal[d] = true
 		}
 	}
-	okWatches := eqStrings(watched, sortedKeys(wantWatched)) || (curAuto && kinds["inotify"] == 0)
-	if !curAuto {
-		// auto-refresh off: no watch is needed; left-over watches are tolerated only on final directories
-		okWatches = true
-		for _, wd := range watched {
-			okWatches = okWatches && wantWatched[wd]
-		}
+	allowWatches := freshRes.watches
+	if !curAuto && len(distinctFinal) > allowWatches {
+		allowWatches = len(distinctFinal)
 	}
-	if !okWatches {
-		r.Failf("watches", "wrong-directories", "the cache watches %v; with the final options (dirs %v, auto-refresh %v) it must watch exactly %v", watched, curDirs, curAuto, sortedKeys(wantWatched))
+	if cur.lib > freshRes.lib+1 {
+		r.Failf("resources", "library-goroutines", "%d goroutines started by the library are alive after %d reconfigurations; a new cache with the final options (auto-refresh %v) runs %d: their number must not grow with the number of reconfigurations", cur.lib, len(steps), curAuto, freshRes.lib)
+	}
+	if cur.inotify > freshRes.inotify+1 || cur.aux > freshRes.aux+3 {
+		r.Failf("resources", "descriptors", "after %d reconfigurations the process holds %d inotify descriptors and %d poller descriptors (auto-refresh %v); a new cache with the final options holds %d and %d", len(steps), cur.inotify, cur.aux, curAuto, freshRes.inotify, freshRes.aux)
+	}
+	if cur.watches > allowWatches {
+		var watched []string
+		for _, in := range e.w.FS.Inotifys() {
+			if in.Owner == e.app.Proc {
+				watched = append(watched, in.WatchedPaths()...)
+			}
+		}
+		sort.Strings(watched)
+		r.Failf("resources", "watches", "after %d reconfigurations the cache holds %d watches %v; a new cache with the final options (dirs %v, auto-refresh %v) holds %d: watches on directories of earlier configurations are left behind", len(steps), cur.watches, watched, curDirs, curAuto, freshRes.watches)
+	}
+	base := cur
+	for k := 0; k < 4; k++ {
+		if k == 1 {
+			// the first of the four brings the cache to its normal state (the last
+			// Configure of the history may have run without free descriptors)
+			base = resourcesOf(e.app)
+		}
+		e.do(fmt.Sprintf("again-%d", k), func() {
+			if useDefault {
+				_ = cdi.Configure(cdi.WithSpecDirs(curDirs...), cdi.WithAutoRefresh(curAuto))
+			} else {
+				_ = e.cache.Configure(cdi.WithSpecDirs(curDirs...), cdi.WithAutoRefresh(curAuto))
+			}
+			touch(e.cache, probeNames(truth), first)
+		})
+		e.w.Quiesce()
+	}
+	r.CheckHealth("after three more reconfigurations to the final options")
+	if more := resourcesOf(e.app); more.lib > base.lib || more.inotify > base.inotify || more.aux > base.aux || more.watches > base.watches {
+		r.Failf("resources", "growth", "three more reconfigurations to the same final options (dirs %v, auto-refresh %v) raised what the cache holds from %+v to %+v (goroutines, inotify instances, poller descriptors, watches)", curDirs, curAuto, base, more)
 	}
 	// (b) probe: a change in every final directory that exists
 	src.Begin("probe")
